@@ -8,13 +8,13 @@ H(name, props, kernel, bound, tier, measured_s, models)
   bound       the input space decided (everything outside is outside the claim)
   tier        quick | thorough
   measured_s  wall time measured on the unchanged tree (16 cores busy); cap = max(240, 5x)
-  models      environment models of DESIGN.md 2.3 in effect (M1 and M6 apply to all parser harnesses)
+  models      environment models of DESIGN.md 2.3 in effect (M1 and M7 apply to all parser harnesses)
 """
 
 HARNESSES = []
 
 
-def H(name, props, kernel, bound, tier="quick", measured_s=30, models=("M1", "M6"), mem_gb=16, termination=False):
+def H(name, props, kernel, bound, tier="quick", measured_s=30, models=("M1", "M7"), mem_gb=16, termination=False):
     HARNESSES.append(
         {
             "name": name,
@@ -57,15 +57,31 @@ H("h_numbers::c01_zero_prefixable_int_u4", ["C01", "C04"], "numbers::zero_prefix
 H("h_numbers::c01_frac_u4", ["C01", "C04"], "numbers::frac (+ from_utf8_unchecked)", U % 4, measured_s=53)
 H("h_numbers::c01_exp_u4", ["C01", "C04"], "numbers::exp (+ from_utf8_unchecked)", U % 4, measured_s=60)
 H("h_numbers::c01_float_syntax_a4", ["C01", "C04"], "numbers::float_ (dec_int, exp, frac; + from_utf8_unchecked)", A % 4, measured_s=280, tier="thorough")
+for b, n in (("hex", "0x"), ("oct", "0o"), ("bin", "0b")):
+    H(f"h_numbers::c02_integer_{b}_a5", ["C02", "C01", "C11", "C04"], f"numbers::integer ({b} arm: dispatch, {b}_int, replace, from_str_radix)",
+      f"`{n}` + every ASCII string of <= 3 bytes (symbolic length)", tier="thorough", measured_s=300, models=("M1", "M2", "M7"))
+H("h_numbers::c02_integer_dec_a4", ["C02", "C01", "C11", "C04"], "numbers::integer (decimal arm: dispatch, dec_int, rest, replace, parse::<i64>)",
+  A % 4 + " not starting with 0x / 0o / 0b", tier="thorough", measured_s=355, models=("M1", "M2", "M7"))
+H("h_numbers::c11_integer_hex_edge16", ["C11", "C02", "C01", "C04"], "numbers::integer (hex arm) with M2", "`0x` + 16 symbolic hex digits (every 64-bit pattern, both cases of A-F)", tier="thorough", measured_s=372, models=("M1", "M2", "M7"), mem_gb=24)
+H("h_numbers::c11_integer_oct_edge22", ["C11", "C02", "C01", "C04"], "numbers::integer (octal arm) with M2", "`0o` + 22 symbolic octal digits (66 bits)", tier="thorough", measured_s=478, models=("M1", "M2", "M7"), mem_gb=24)
 H("h_numbers::c01_true_a5", ["C01", "C02"], "numbers::true_", A % 5, measured_s=6)
 H("h_numbers::c01_false_a6", ["C01", "C02"], "numbers::false_", A % 6, measured_s=7)
 H("h_numbers::c02_special_float_a5", ["C02", "C01", "C11"], "numbers::special_float, inf, nan", A % 5, measured_s=14)
 
 # ---- strings / keys -----------------------------------------------------------------------------
 H("h_strings::c01_unquoted_key_u4", ["C01", "C04"], "key::unquoted_key (+ from_utf8_unchecked)", U % 4, measured_s=7)
-H("h_strings::c02_escape_seq_char_a5", ["C02", "C01", "C04"], "strings::escape_seq_char, hexescape::<4>", A % 5, measured_s=42)
-H("h_strings::c02_hexescape4_a5", ["C02", "C01", "C04"], "strings::hexescape::<4> (+ from_utf8_unchecked, from_str_radix, char::from_u32)", A % 5, measured_s=16)
-H("h_strings::c02_hexescape8_shape9", ["C02", "C01", "C04"], "strings::hexescape::<8>", "7 symbolic HEXDIG bytes + 1 free ASCII byte + optional free ASCII byte (every code point 0..=0xFFFFFFFF of that shape)", measured_s=29)
+H("h_strings::c02_escape_seq_char_u5", ["C02", "C01", "C04"], "strings::escape_seq_char, hexescape::<4>", U % 5, measured_s=60)
+H("h_strings::c02_hexescape4_u5", ["C02", "C01", "C04"], "strings::hexescape::<4> (+ from_utf8_unchecked, from_str_radix, char::from_u32)", U % 5, measured_s=25)
+H("h_strings::c02_hexescape8_shape9", ["C02", "C01", "C04"], "strings::hexescape::<8>", "7 symbolic HEXDIG bytes + 1 or 2 free bytes (well-formed UTF-8 overall: the 8-byte window may end inside a 2-byte character)", measured_s=29)
+
+H("h_string_tokens::c02_literal_string_u5", ["C02", "C01", "C04"], "strings::literal_string (delimited, take_while(LITERAL_CHAR), try_map(from_utf8))",
+  "`'` + every well-formed UTF-8 string of <= 4 bytes (symbolic length)", measured_s=19, models=("M1", "M7"))
+H("h_string_kernels::c02_basic_chars_u4", ["C02", "C01", "C04"], "strings::basic_chars (take_while(BASIC_UNESCAPED).try_map(from_utf8) | escaped)", U % 4, measured_s=80, models=("M1", "M7"))
+H("h_string_kernels::c02_mll_content_u3", ["C02", "C01", "C04"], "strings::mll_content", U % 3, measured_s=7)
+H("h_string_kernels::c01_mlb_quotes_body_a6", ["C01", "C02", "C04"], "strings::mlb_quotes(none_of('\"'))", A % 6, measured_s=10)
+H("h_string_kernels::c01_mlb_quotes_end_a6", ["C01", "C02", "C04"], "strings::mlb_quotes(ML_BASIC_STRING_DELIM)", A % 6, measured_s=16)
+H("h_string_kernels::c01_mll_quotes_body_a6", ["C01", "C02", "C04"], "strings::mll_quotes(none_of('\''))", A % 6, measured_s=11)
+H("h_string_kernels::c01_mll_quotes_end_a6", ["C01", "C02", "C04"], "strings::mll_quotes(ML_LITERAL_STRING_DELIM)", A % 6, measured_s=16)
 
 # ---- date-time kernels of toml_edit -------------------------------------------------------------
 for f in ("time_hour", "time_minute", "time_second", "date_month", "date_mday"):
@@ -90,9 +106,9 @@ H("h_datetime_fromstr::c12_fromstr_u5", ["C12", "C04"], "toml_datetime::Datetime
 
 # ---- C11: float overflow guard ------------------------------------------------------------------
 H("h_float::c11_float_overflow_guard", ["C11", "C01"], "numbers::float (float_, rest.try_map(parse), verify) with M2 + M3",
-  "[+-]? d (. d)? e [+-]? ddd : all sign choices, all digits symbolic (mantissa <= 2 digits, exponent 3 digits)", tier="thorough", measured_s=725, models=("M1", "M2", "M3", "M6"), mem_gb=30)
+  "[+-]? d (. d)? e [+-]? ddd : all sign choices, all digits symbolic (mantissa <= 2 digits, exponent 3 digits)", tier="thorough", measured_s=725, models=("M1", "M2", "M3", "M7"), mem_gb=30)
 H("h_float::c11_float_overflow_guard_small", ["C11", "C01"], "numbers::float (float_, rest.try_map(parse), verify) with M2 + M3",
-  "[-]? d e ddd : optional minus, 4 symbolic digits", measured_s=200, models=("M1", "M2", "M3", "M6"), mem_gb=30)
+  "[-]? d e ddd : optional minus, 4 symbolic digits", measured_s=200, models=("M1", "M2", "M3", "M7"), mem_gb=30)
 
 H("h_float_writer::c11_write_f64_all_bits", ["C11"], "toml_write: <f64 as WriteTomlValue>::write_toml_value (unmodified source via E2)", "every f64 bit pattern (integrality of finite values judged by `% 1.0` on both sides, see M4)", measured_s=16, models=("E2", "M4"))
 H("h_float_writer::c11_write_f32_all_bits", ["C11"], "toml_write: <f32 as WriteTomlValue>::write_toml_value (unmodified source via E2)", "every f32 bit pattern", measured_s=11, models=("E2", "M4"))
@@ -159,6 +175,6 @@ PROPERTIES = {
 
 COMMON_ASSUMPTIONS = [
     "M1: winnow::error::ContextError is payload-free in the harness build (error messages not modelled); generated from the pinned winnow by tools/gen_winnow_lite.py",
-    "M6: harness profile has debug-assertions=off so trivia::from_utf8_unchecked takes its release branch; harnesses assert ASCII-ness of the slices instead",
+    "M7: core::str::from_utf8 is a plain validating loop (refmodel::models::from_utf8, validated against std natively) wherever the code under test calls it; the harness profile has debug assertions ON, so trivia::from_utf8_unchecked runs its checked branch and every slice reaching it is validated",
     "CBMC/Kani soundness; Kani's models of std intrinsics; bounded: nothing is claimed outside each harness bound",
 ]
